@@ -10,19 +10,23 @@ CHECKS = {
  'C10': dict(cat='model_checking', tech='bounded model checking of the real bit_unpack (Kani/CBMC, SAT) over every byte string of an eta section; native replay through PrivateKey::try_from_bytes',
    text='For both eta values the solver decides over all 2^768 / 2^1024 byte strings of one s1/s2 section that the real bit_unpack(v, eta, eta) returns Ok exactly when every field is <= 2*eta, and that the decoded coefficient at a symbolic index is eta - field. Counterexamples are replayed through the public try_from_bytes of ml_dsa_44 / ml_dsa_65. An E2 layout obligation per parameter set shows that sk_decode hands every s1 / s2 section (loop index symbolic) to bit_unpack with (eta, eta); a native workload tries every slot x out-of-range value.',
    note='Kani/CBMC; zeroising Drop of R stubbed; sk_decode applies bit_unpack section by section (structural).', ref='DESIGN.md §5 C10'),
- 'C12': dict(cat='model_checking', tech='bounded model checking of the real entry points (Kani/CBMC, SAT) with a fault-injecting model RNG',
+ 'C12': dict(cat='model_checking', tech='bounded model checking of the real entry points (Kani/CBMC, SAT) with a fault-injecting model RNG (symbolic error value, symbolic per-request fault mask) + E2 skeletons of the OS-RNG wrappers',
    text='Kani decides for try_keygen_with_rng, try_sign_with_rng and try_hash_sign_with_rng of every parameter set: exactly one 32-byte request through try_fill_bytes; on failure (before writing or after any prefix) the result is Err and no key / signature is computed; the infallible RNG methods are never called; on success the 32 drawn bytes are exactly the rnd / seed handed to Sign_internal / KeyGen_internal.',
    note='Kani/CBMC; internals stubbed to recorders; OsRng wrappers are one-line delegations (not executed).', ref='DESIGN.md §5 C12'),
  'C15': dict(cat='proof', tech='SMT (z3 bit-vector / integer encodings generated from the real MIR) over the whole input domain of each scalar kernel, twinned with Kani/CBMC harnesses',
    text='Every scalar kernel (partial_reduce32, full_reduce32, center_mod, mont_reduce, partial_reduce64 on x<<32, decompose, high_bits, low_bits, make_hint, use_hint, coeff_from_three_bytes, coeff_from_half_byte, the two Power2Round closures) is translated from the MIR of the current tree and each obligation (equality with the FIPS 204 formula, congruence, range, every overflow / debug_assert site) is decided unsat over the entire documented domain - no bound. Kani decides the same lemmas on the compiled code. The translator is validated each run against native execution.',
    note='trusted: rustc MIR dump, translator (validated), z3 5.1 (cross-checked with z3 4.8.12), Kani/CBMC, transcription of the FIPS formulas.', ref='DESIGN.md §5 C15'),
- 'C18': dict(cat='model_checking', tech='SMT over the real MIR (integer encoding, Montgomery call summary): inductive butterfly lemmas with symbolic magnitude bound, per-closure range lemmas, call-site range chain by def-chain tracing; overflow witnesses by solver + template + native replay',
+ 'C18': dict(cat='model_checking', tech='SMT over the real MIR (integer encoding, Montgomery call summary): inductive butterfly lemmas with symbolic magnitude bound, loop-nest schedule lemmas (one step of each loop of ntt / inv_ntt from an arbitrary state), per-closure range lemmas, call-site range chain by def-chain tracing; overflow witnesses by solver + template + native replay',
    text='Inductive lemmas on one forward / inverse butterfly iteration from an arbitrary loop state (all j, len, zeta, coefficient values within a symbolic bound B): exact output equations, frame, no i32/i64 overflow, magnitude growth; copy-in / final scaling of inv_ntt; to_mont and mat_vec_mul closures; then every inv_ntt / to_mont / mat_vec_mul call site of the crate is shown to respect the admissible input magnitude (producer found by tracing the MIR). Composition to "equals the negacyclic product" uses linearity + a concrete basis premise (stated).',
    note='trusted: MIR dump, translator, z3; composition step is pen-and-paper; basis premise is a concrete native run.', ref='DESIGN.md §5 C18'),
 }
 CHECKS['C16'] = dict(cat='model_checking', tech='bounded model checking of the real zeroising Drop / Zeroize code (Kani/CBMC, SAT) for every content and read-back position, plus a dataflow skeleton of the derived Drop bodies extracted from the MIR',
    text='Kani executes the real volatile-write erasure of R, T, [u8;32], [u8;64] and [T;2] for every content and proves every element zero afterwards; the E2 skeleton of the derived Drop/Zeroize bodies of PrivateKey, PublicKey, R, T shows that every field of each struct is handed to a zeroising call on the single path of Drop (so a #[zeroize(skip)] or a removed derive is reported). The whole PublicKey<1,1> object is also decided in the quick tier; the PrivateKey<1,1> object (18 min) in the thorough tier.',
    note='only the inline-asm optimisation barrier is stubbed; zeroize crate AssertZeroize forwarding trusted; real (K,L) by genericity.', ref='DESIGN.md §5 C16')
+
+CHECKS['C14'] = dict(cat='other', tech='SMT self-composition (2-safety) over the release-flag MIR: taint of everything derived from the random generator, one z3 query per branch / index / early-exit observation that mentions a secret-derived symbol; findings replayed natively with coverage region counters and valgrind instruction counts',
+   text='MIR-level non-interference in constant-time test mode: for every crate body reachable from key_gen_internal / sign_internal with CTEST = true, and for 27 secret-handling kernels alone with every coefficient input secret, no switchInt discriminant, array index, slice position or early-exit library call depends on secret data (solver: two executions agreeing on all public symbols cannot differ in the observed value; loops: one iteration from a havocked state with taint fixed point). Not claimed: the compiled artefact (instruction selection), bodies of core / sha3 / zeroize, the exact whole-pipeline trace through SHAKE.',
+   note='range checks are analysed on success only (property wording); a finding is a VIOLATION only when the real code shows different coverage-region or instruction counts for two secrets.', ref='DESIGN.md §5 C14, §11.6')
 
 _SK = 'E2 dataflow skeleton of the real MIR (calls uninterpreted) unified with the FIPS 204 call sequence + SMT decision/closure lemmas'
 CHECKS['C01'] = dict(cat='model_checking', tech='compositional: Kani/CBMC lemmas on the real hint kernels over the whole coefficient domain + ' + _SK,
@@ -37,7 +41,7 @@ CHECKS['C03'] = dict(cat='translation_validation', tech=_SK + '; wrappers by Kan
 CHECKS['C04'] = dict(cat='translation_validation', tech=_SK + '; wrappers by Kani/CBMC',
    text='key_gen_internal is validated against Algorithm 6 (H(xi||k||l) split 32/64/32, ExpandS, ExpandA, t = A s1 + s2 fully reduced, Power2Round, tr = H(pkEncode)), the returned structs hold the prescribed precomputes, closures equal FIPS formulas; try_keygen_with_rng = keygen_from_seed on the drawn bytes (Kani).',
    note='samplers / Power2Round / pkEncode uninterpreted here (C15/C08).', ref='DESIGN.md §5 C04')
-CHECKS['C05'] = dict(cat='other', tech='bit relevance only: ' + _SK + ' + Kani lemma UseHint(1,r) != UseHint(0,r); hash / lattice part not claimed',
+CHECKS['C05'] = dict(cat='other', tech='bit relevance only: ' + _SK + ' + loop-step lemmas of hint_bit_unpack / hint_bit_pack (SMT, K and omega symbolic; Kani window harnesses as fall-back) + Kani lemma UseHint(1,r) != UseHint(0,r); hash / lattice part not claimed',
    text='Only the solver-decidable part: no bit of signature, public key, message or context is ignored by verification and the encodings have no slack. That a changed transcript cannot collide under SHAKE256, or a changed z give the same w1\', is not claimed.',
    note='see coverage.explanation in the evidence.', ref='DESIGN.md §5 C05')
 CHECKS['C06'] = dict(cat='model_checking', tech='SMT (z3 sequence theory) injectivity of the formatted message for byte strings of every length + ' + _SK + ' + Kani wrappers (OID / digest)',
@@ -52,11 +56,10 @@ CHECKS['C09'] = dict(cat='model_checking', tech=_SK + ' for expand_* / into_byte
 CHECKS['C11'] = dict(cat='translation_validation', tech=_SK + ' for private_to_public_key vs key_gen_internal',
    text='private_to_public_key is validated against the t1 pipeline of KeyGen (same call sequence modulo leaving Montgomery form), rho and tr are copied from the private key, and every closure equals its formula for every coefficient value in the range its producer guarantees.',
    note='algebra uninterpreted (C18); counterexamples confirmed natively by a directed seed search.', ref='DESIGN.md §5 C11')
-CHECKS['C13'] = dict(cat='model_checking', tech='panic-site inventory of the checked MIR (E2 skeleton, SMT per site under callee contracts) + native hostile-input workload as replay vehicle',
+CHECKS['C13'] = dict(cat='model_checking', tech='panic-site inventory of the checked MIR (E2 skeleton, SMT per site under callee contracts) + the closure / kernel lemma suite (ranges that callee self-checks rely on) + loop-step lemmas of the hint decoder with every index / overflow obligation; native hostile-input workload and directed checked-release searches as replay vehicles',
    text='Every panic / assert site in the bodies of the big functions and public wrappers is enumerated from the checked MIR and shown unreachable under the concrete parameters and callee contracts; sites inside kernels, closures, codecs and transforms are obligations of C15 / C18 / C08 / C10; the hint-section decoder additionally runs here under Kani with all default checks (index bounds, overflow, debug assertions) on symbolic count and index bytes.',
    note='samplers are covered by the native workload only.', ref='DESIGN.md §5 C13')
 NA = [
- ('C14', 'whole-pipeline branch/address trace equality needs the compiled artefact executed through real SHAKE for all RNG outputs; no binary/LLVM-level symbolic executor is available and MIR-level control flow is stricter than the binary (Ord::max, abs_diff) - outside solver-based checking of the source here'),
  ('C17', 'quantifies over 28 cargo feature configurations whose observable is rustc\'s exit status and a known-answer digest; cfg resolution happens before any MIR exists, so there is no symbolic variable for a solver - deciding it means enumerating concrete builds'),
 ]
 def main():
